@@ -71,3 +71,78 @@ pub fn run(_a: &Args) {
         let _ = ActorStatus::Stopped;
     });
 }
+
+/// C06 guard slice: an actor whose final state's `Drop` panics while the undeliverable terminal event is dropped inside the exit clean-up (no supervisor, or a
+/// supervisor that has already stopped). Reports the status when the join handle completes and whether early / late waiters and stop_and_wait return.
+struct Bomb;
+impl Drop for Bomb {
+    fn drop(&mut self) {
+        if !std::thread::panicking() {
+            panic!("final state panics on drop");
+        }
+    }
+}
+struct Fragile;
+impl Actor for Fragile {
+    type Msg = ();
+    type State = Bomb;
+    type Arguments = ();
+    async fn pre_start(&self, _: ActorRef<()>, _: ()) -> Result<Bomb, ActorProcessingErr> {
+        Ok(Bomb)
+    }
+}
+struct Quiet;
+impl Actor for Quiet {
+    type Msg = ();
+    type State = ();
+    type Arguments = ();
+    async fn pre_start(&self, _: ActorRef<()>, _: ()) -> Result<(), ActorProcessingErr> {
+        Ok(())
+    }
+}
+
+pub fn teardown_panic(a: &Args) {
+    let dead_sup = a.u64("dead_sup") == 1;
+    let mode = a.str("mode").to_string();
+    std::panic::set_hook(Box::new(|_| {}));
+    let rt = tokio::runtime::Builder::new_multi_thread().worker_threads(2).enable_all().build().unwrap();
+    rt.block_on(async {
+        let (actor, handle) = if dead_sup {
+            let (sup, sh) = Actor::spawn(None, Quiet, ()).await.unwrap();
+            let r = Actor::spawn_linked(None, Fragile, (), sup.get_cell()).await.unwrap();
+            // the supervisor's mailbox is closed while the link is still in place: stop it and let its task end, then re-link is not needed - the child is
+            // killed by the supervisor's exit, so instead unlink first and close the supervisor afterwards
+            r.0.unlink(sup.get_cell());
+            sup.stop(None);
+            let _ = sh.await;
+            r
+        } else {
+            Actor::spawn(None, Fragile, ()).await.unwrap()
+        };
+        let early = {
+            let a = actor.clone();
+            tokio::spawn(async move { a.wait(None).await.is_ok() })
+        };
+        tokio::task::yield_now().await;
+        let req = {
+            let a = actor.clone();
+            let mode = mode.clone();
+            tokio::spawn(async move {
+                match mode.as_str() {
+                    "drain" => a.drain_and_wait(None).await.is_ok(),
+                    _ => a.stop_and_wait(None, None).await.is_ok(),
+                }
+            })
+        };
+        let joined = tokio::time::timeout(Duration::from_secs(3), handle).await.is_ok();
+        println!("joined={}", joined as u8);
+        println!("status_at_join={}", actor.get_status() as u8);
+        let e = tokio::time::timeout(Duration::from_secs(3), early).await;
+        println!("early_waiter={}", matches!(e, Ok(Ok(true))) as u8);
+        let r = tokio::time::timeout(Duration::from_secs(3), req).await;
+        println!("request_and_wait={}", matches!(r, Ok(Ok(true))) as u8);
+        let l = tokio::time::timeout(Duration::from_secs(3), actor.wait(None)).await;
+        println!("late_waiter={}", matches!(l, Ok(Ok(()))) as u8);
+        println!("status_later={}", actor.get_status() as u8);
+    });
+}
